@@ -10,6 +10,7 @@ monotone       : a_s strictly decreasing along an increasing grid of scales (cou
 
 rge-tau-down/up: the same local law at a target on the other side of m_tau^2 from the reference
                  (running QED: two leptons below, three above), 5-point difference around the target
+tau-cont-down/up: the couplings just below and just above m_tau^2 agree (reference on either side)
 
 The matching scales are moved far away so that every scale lies in the reference patch; except in
 the rge-tau clauses all scales stay above m_tau^2 (three leptons).
@@ -123,6 +124,27 @@ def measure(cell, seed, npts):
             d = (-a_at(2 * h) + 8 * a_at(h) - 8 * a_at(-h) + a_at(-2 * h)) / (12 * h)
             ds, de = _beta_indep(a_at(0.0), order, qed, running, nf, nl)
             res = max(abs(d[0] - ds) / abs(ds), abs(d[1] - de) / abs(de))
+        elif clause in ("tau-cont-down", "tau-cont-up"):
+            from eko import constants
+
+            mtau2 = constants.MTAU**2
+            delta = 1e-4   # the couplings move by ~ 2 delta beta0 a^2 < 1e-4 a over the stencil
+            for _try in range(50):
+                if clause == "tau-cont-down":
+                    alphas = rng.uniform(0.08, 0.2)
+                    muref = math.exp(rng.uniform(math.log(2.2), math.log(30.0)))
+                else:
+                    alphas = rng.uniform(0.15, 0.3)
+                    muref = math.sqrt(mtau2 * math.exp(-rng.uniform(0.1, 0.5)))
+                sc = _couplings(order, qed, running, method, nf, alphas, alphaem, muref)
+                far = np.array(sc.a(mtau2 * math.exp(-0.3 if clause == "tau-cont-down" else 0.3), nf), dtype=float)
+                if np.all(np.isfinite(far)) and 0.0 < far[0] < 0.04:
+                    break
+            else:
+                raise RuntimeError("no perturbative instance")
+            below = np.array(sc.a(mtau2 * math.exp(-delta), nf), dtype=float)
+            above = np.array(sc.a(mtau2 * math.exp(delta), nf), dtype=float)
+            res = float(np.max(np.abs(above - below) / np.abs(below)))
         else:  # expanded-order
             u = rng.uniform(0.7, 2.0) * (1 if rng.random() < 0.7 else -0.3)
             d = []
